@@ -189,6 +189,20 @@ def obs_pipeline(prop, tier, seed, work, t0, flavor="sync"):
                  harness_hang=(hrc == 3),
                  mc_config="Obs.tla, NV=3, 2 owners, 2 subscribers, 1 weak, 2 guards, <= %d operations" % (5 if quick else 7),
                  exhaustive=False)
+    if prop == "C19" and flavor == "sync":
+        # "for both lock flavours": the same handle histories on the async-lock flavour
+        trace2 = os.path.join(work, "trace-async.ndjson")
+        run_harness(["obs-async-replay", beh, trace2, "--nv", "3"])
+        c2 = os.path.join(work, "TraceObsAsync.cfg")
+        write_cfg(c2, spec="TraceSpec", constants=OBSA_TRACE, postcondition="TraceAccepted")
+        val2 = validate("TraceObsAsync", c2, trace2, work)
+        for v in val2["violations"]:
+            v["detail"]["kind"] = str(v["detail"].get("kind")) + "/async"
+        val["violations"] += [v for v in val2["violations"] if v["prop"] == "C19"]
+        val["states"] = val.get("states", 0) + val2["states"]
+        st2 = val2["stats"] + [0] * 8
+        extra["async_flavour"] = dict(calls_followed=st2[2], counts_checked=st2[6])
+        os.remove(trace2)
     nontriv = obs_nontrivial(prop)
     sig = obs_sig
     assumptions = ["the harness executes each call faithfully and logs its result (no oracle in the harness)",
@@ -238,8 +252,14 @@ def replay(prop, path, work):
         flavor = payload.get("flavor", "sync")
         run_harness(["obs-replay" if flavor == "sync" else "obs-async-replay", beh, trace, "--nv", "3"])
         c = os.path.join(work, "TraceObs.cfg")
-        write_cfg(c, spec="TraceSpec", constants=dict(OBS_TRACE, Flavor=flavor), postcondition="TraceAccepted")
-        val = validate("TraceObs", c, trace, work, nchunks=1)
+        if flavor == "async":
+            write_cfg(c, spec="TraceSpec", constants=OBSA_TRACE, postcondition="TraceAccepted")
+            val = validate("TraceObsAsync", c, trace, work, nchunks=1)
+            for v in val["violations"]:
+                v["prop"] = "C16"
+        else:
+            write_cfg(c, spec="TraceSpec", constants=dict(OBS_TRACE, Flavor=flavor), postcondition="TraceAccepted")
+            val = validate("TraceObs", c, trace, work, nchunks=1)
     elif layer == "vec":
         run_harness(["vec-replay", beh, trace])
         val = vec_validate(trace, work)
@@ -969,3 +989,79 @@ def lin_pipeline(prop, tier, seed, work, t0):
 
 
 CHECKS["C04"] = lin_pipeline
+
+
+# =========================================================================== C16: async-lock flavour
+OBSA_TRACE = dict(OBS_TRACE, FutIds={1, 2}, Flavor="async")
+
+
+def async_pipeline(prop, tier, seed, work, t0):
+    quick = tier == "quick"
+    a_mc = dict(OBS_MC, FutIds={1})
+    cfg = os.path.join(work, "MCObsAsync.cfg")
+    write_cfg(cfg, spec="ASpec", constants=dict(a_mc, Depth=6 if quick else 7), view="View", constraints=["Bound"],
+              invariants=["TypeOK", "ReadyIffUnseen", "NoLostWake", "ClosedIffNoOwner", "LockExclusion", "LockWaitersWoken",
+                          "WokenWriterCompletes", "WokenReaderProceeds"])
+    mc = tlc("GenObsAsync", cfg, work, workers=8, timeout=3000, tag="mc")
+    if not tlc_ok(mc, "ObsAsync"):
+        log(mc["out"][-5000:])
+        raise ToolError("ObsAsync: the model violates its invariants (model error)")
+    beh = os.path.join(work, "beh.ndjson")
+    n = 0
+    # (a) the very same behaviours as C01-C03 (generated from the sync specification)
+    c = os.path.join(work, "GenEdge.cfg")
+    write_cfg(c, spec="Spec", constants=dict(OBS_MC, Depth=5 if quick else 6), view="View", constraints=["Bound"], action_constraints=["Edge"])
+    k, _ = gen_behaviours("GenObs", c, work, beh, "edge", tag="edge")
+    n += k
+    log("gen sync-spec edge: %d" % k)
+    c = os.path.join(work, "GenSim.cfg")
+    write_cfg(c, spec="Spec", constants=dict(NV=3, OwnerIds={1, 2, 3}, SubIds={1, 2, 3, 4}, WeakIds={1, 2},
+                                            GuardIds={1, 2}, Kinds={"unique", "shared"}, Depth=40),
+              constraints=["BoundTree"], invariants=["PrintAtDepth"])
+    k, _ = gen_behaviours("GenObs", c, work, beh, "sim", num=300 if quick else 20000, depth=41, seed=seed, tag="sim", timeout=1500)
+    n += k
+    log("gen sync-spec sim: %d" % k)
+    # (b) behaviours with calls issued while guards are held (ObsAsync)
+    c = os.path.join(work, "GenAEdge.cfg")
+    write_cfg(c, spec="ASpec", constants=dict(a_mc, Depth=5 if quick else 6), view="View", constraints=["Bound"], action_constraints=["Edge"])
+    k, _ = gen_behaviours("GenObsAsync", c, work, beh, "edge", tag="aedge", workers=12, timeout=3000)
+    n += k
+    log("gen async edge: %d" % k)
+    c = os.path.join(work, "GenASim.cfg")
+    write_cfg(c, spec="ASpec", constants=dict(NV=3, OwnerIds={1, 2, 3}, SubIds={1, 2, 3, 4}, WeakIds={1}, GuardIds={1, 2}, FutIds={1, 2},
+                                             Kinds={"unique", "shared"}, Depth=40),
+              constraints=["BoundTree"], invariants=["PrintAtDepth"])
+    k, _ = gen_behaviours("GenObsAsync", c, work, beh, "sim", num=300 if quick else 20000, depth=41, seed=seed, tag="asim", timeout=1500)
+    n += k
+    log("gen async sim: %d" % k)
+    trace = os.path.join(work, "trace.ndjson")
+    hrc = run_harness(["obs-async-replay", beh, trace, "--nv", "3"])
+    c = os.path.join(work, "TraceObsAsync.cfg")
+    write_cfg(c, spec="TraceSpec", constants=OBSA_TRACE, postcondition="TraceAccepted")
+    val = validate("TraceObsAsync", c, trace, work)
+    # every rule of C01-C03/C19 that fails on the async flavour is a C16 violation
+    for v in val["violations"]:
+        v["detail"]["rule_of"] = v["prop"]
+        v["prop"] = "C16"
+    st = val["stats"] + [0] * 10
+    extra = dict(trace_events=st[0], calls_followed=st[2],
+                 exercised=dict(owed_wake=st[3], after_end=st[4], ready_polls=st[5], counts=st[6], lock_waiters_woken=st[7],
+                                pending_writers_completed=st[8]),
+                 harness_hang=(hrc == 3), exhaustive=False,
+                 mc_config="ObsAsync.tla over Obs.tla, NV=3, 2 owners, 2 subscribers, 2 guards, 1 pending future, <= %d operations" % (5 if quick else 6))
+
+    def sig(v):
+        s = obs_sig(v)
+        s["rule_of"] = v["detail"].get("rule_of")
+        return s
+    return finish(prop, tier, seed, t0, mc, n, beh, val,
+                  "the C01-C03 behaviours (generated from the sync specification Obs.tla) plus behaviours with polls / writer calls issued "
+                  "while guards are held (ObsAsync.tla), all executed on new_async objects with every future polled by a hand-rolled executor; "
+                  "non-trivial = a writer call followed by a call that hands out a value or polls",
+                  obs_nontrivial("C01"), extra,
+                  ["with the lock free a future must complete on its first poll (what the specification demands of the flavour)",
+                   "at most one waiter is queued on the lock at a time: tokio's queue fairness is not part of the property"],
+                  "obs", sig, replay_extra=dict(flavor="async"))
+
+
+CHECKS["C16"] = async_pipeline
